@@ -12,7 +12,7 @@ CONSTANT RenameSites     \* sites at which the reference merge rewrites referenc
 VARIABLE sc
 AllButInstanceTypeRef == SiteIds \ {"INSTANCE.type_ref"}
 Modes == {"plain", "conflict", "twin", "homonym", "premerge", "premerge_b", "premerge_ab", "owner_conflict", "owner_union",
-          "owner_union_overlap"}
+          "owner_union_overlap", "conflict_owner_twin"}
 Renamable(ns) == ns \notin ({"FUNCTION", "GROUP", "USER_RIGHTS", "MOD_COMMON", "VARIANT_CODING"} \cup LocalNs)
 SeqRange(s) == {s[i] : i \in 1..Len(s)}
 
@@ -25,10 +25,11 @@ Valid(x) ==
     LET n == SiteTarget[x.site]  ok == NsOfKind[SiteOwner[x.site]] IN
     /\ IF n \in LocalNs THEN x.tk = "-" /\ x.ak = "-" /\ x.mode \in {"plain", "homonym"}
        ELSE /\ x.tk \in SeqRange(KindsOfNs[n])
-            /\ IF x.mode \in {"conflict", "premerge", "premerge_b", "premerge_ab", "owner_conflict"} THEN x.ak \in SeqRange(KindsOfNs[n]) /\ Renamable(n)
+            /\ IF x.mode \in {"conflict", "premerge", "premerge_b", "premerge_ab", "owner_conflict", "conflict_owner_twin"} THEN x.ak \in SeqRange(KindsOfNs[n]) /\ Renamable(n)
                ELSE x.ak = "-"
     /\ (x.pos > 1 => SiteIsList[x.site])
     /\ (x.mode = "owner_conflict" => Renamable(ok) /\ x.pos = 1)
+    /\ (x.mode = "conflict_owner_twin" => Renamable(ok) /\ x.pos = 1 /\ x.ak = x.tk /\ SiteOwner[x.site] \notin UnionKinds)
     /\ (x.mode \in {"owner_union", "owner_union_overlap"} => SiteOwner[x.site] \in UnionKinds /\ x.pos = 1)
     /\ (x.mode = "owner_union_overlap" => SiteIsList[x.site])
     /\ (x.mode = "twin" => n \notin LocalNs)
@@ -65,6 +66,10 @@ CaseOf(x) ==
                [] x.mode = "premerge_b" -> <<El(x.ak, "t1", 30, <<>>)>>
                [] x.mode = "premerge_ab" -> <<El(x.ak, "t1", 30, <<>>), El(x.ak, "t1.MERGE", 33, <<>>)>>
                [] x.mode = "owner_conflict" -> <<El(x.ak, "t1", 30, <<>>), El(okind, "o1", 35, <<>>)>>
+               \* A holds an element with the text of B's owner; B's target collides with a different element of A: B's
+               \* owner is not A's owner (it means another target) although the two read the same
+               [] x.mode = "conflict_owner_twin" ->
+                     <<El(x.ak, "t1", 30, <<>>)>> \o (IF SiteIsList[s] THEN <<El(x.tk, "x1", 21, <<>>), El(x.tk, "y1", 22, <<>>)>> ELSE <<>>) \o <<owner>>
                [] x.mode = "owner_union" -> <<El(x.tk, "z1", 34, <<>>), El(okind, "o1", 36, <<<<s, <<"z1">>>>>>)>>
                \* both owners hold t1 and y1 (identical twins in A), A's list has another member between them
                [] x.mode = "owner_union_overlap" ->
